@@ -128,7 +128,7 @@ func adaptTimeoutLimit(n int) limAdapter {
 // Borrow with a tiny timeout at full capacity times out; (3) after returning them,
 // further Returns report ErrLimitReturn; (4) the capacity is still exactly n.
 func probeLimit(m *mon, ad limAdapter, n int, r *kit.Rand, phase string) {
-	m.c.Obs(m.prim+"_quiescence_probes", 1)
+	m.probeObs()
 	round := func(tag string) bool {
 		leakKind, inflKind := "leak/"+phase, "inflated/"+phase
 		if tag == "capacity-after-over-return" {
